@@ -931,11 +931,11 @@ class Extractor:
                     if p.nth < 1 or p.nth > len(ws):
                         self.report['unanchored'].append({'what': '%s proof after-write #%d' % (path, p.nth), 'src': p.src})
                         continue
-                    edits.append(Edit(ws[p.nth - 1], ws[p.nth - 1], block, ('inj', 'proof', p.src, 'proof')))
+                    edits.append(Edit(ws[p.nth - 1], ws[p.nth - 1], block, ('inj', p.label or 'proof', p.src, 'proof')))
                 elif p.where == 'body-start':
-                    edits.append(Edit(body_src_lo, body_src_lo, block, ('inj', 'proof', p.src, 'proof')))
+                    edits.append(Edit(body_src_lo, body_src_lo, block, ('inj', p.label or 'proof', p.src, 'proof')))
                 elif p.where == 'fn-end':
-                    edits.append(Edit(body_src_hi, body_src_hi, block, ('inj', 'proof', p.src, 'proof')))
+                    edits.append(Edit(body_src_hi, body_src_hi, block, ('inj', p.label or 'proof', p.src, 'proof')))
                 else:
                     pos = self.find_anchor(src, toks, lo, hi, p.anchor, p.nth)
                     if pos is not None and os.environ.get('VP_ANCHOR_SUGGEST'):
@@ -949,12 +949,12 @@ class Extractor:
                     if p.where == 'tail':
                         # R11: bind the tail expression so that a proof block can follow it:  E  ->  { let ret__ = E; proof {..} ret__ }
                         edits.append(Edit(st_start, st_start, '{ let ret__ = ', ('gen', 'R11')))
-                        edits.append(Edit(st_end, st_end, ';' + block.replace('%r', 'ret__') + ' ret__ }', ('inj', 'proof', p.src, 'proof')))
+                        edits.append(Edit(st_end, st_end, ';' + block.replace('%r', 'ret__') + ' ret__ }', ('inj', p.label or 'proof', p.src, 'proof')))
                         self.log_rule('R11', relfile, src.count('\n', 0, st_start) + 1, 'tail expression bound for a proof block in ' + path)
                     elif p.where == 'before':
-                        edits.append(Edit(st_start, st_start, block, ('inj', 'proof', p.src, 'proof')))
+                        edits.append(Edit(st_start, st_start, block, ('inj', p.label or 'proof', p.src, 'proof')))
                     else:
-                        edits.append(Edit(st_end, st_end, block, ('inj', 'proof', p.src, 'proof')))
+                        edits.append(Edit(st_end, st_end, block, ('inj', p.label or 'proof', p.src, 'proof')))
         # F5 allocation bound: a ghost assertion before every statement that allocates a length taken from a variable
         size_name = next((nm for nm in getattr(self, '_pnames', []) if nm in ('size', '_size')), None)
         k = lo
